@@ -58,13 +58,14 @@ def gen_config(H):
         "hc_n": 1 + H.draw(4),
         "minimize": bool(H.draw(2)),
         "time_budget": bool(H.draw(4) == 3),
+        "composite_budget": bool(H.draw(2)),
         "default_random": bool(H.draw(4) == 3),  # the search is built without `random=` (documented default)
         "fitness_levels": H.pick([1000, 1000, 7, 3]),  # coarse fitness: ties at the elite cut
         "elitist_step": bool(H.draw(2)),  # GP step that really reserves elite slots (the default 5% rounds to 0 for small populations)
     }
 
 
-def run_search(spec, cfg, built=None, grammar=None, clock=None):
+def run_search(spec, cfg, built=None, grammar=None, clock=None, shared=None):
     """one search; returns (trace list, built, grammar)"""
     from geneticengine.algorithms.gp.gp import GeneticProgramming
     from geneticengine.algorithms.hill_climbing import HC
@@ -117,9 +118,18 @@ def run_search(spec, cfg, built=None, grammar=None, clock=None):
             self.n += 1
             return self.n > 6 * cfg["evals"] + 20
 
-    bud = AnyOf(EvaluationBudget(cfg["evals"]), Checks())
-    if cfg["time_budget"]:
-        bud = AnyOf(TimeBudget(10**6), bud)
+    # the library's budget objects hold no run state (they read the tracker): a caller may hand the SAME budget object to a
+    # second search (history, `shared`); the harness' own bound on budget checks is always fresh
+    lib_bud = shared.get("budget") if shared is not None else None
+    if lib_bud is None:
+        lib_bud = EvaluationBudget(cfg["evals"])
+        if cfg.get("composite_budget"):
+            lib_bud = AnyOf(lib_bud, EvaluationBudget(cfg["evals"] + 3))
+        if cfg["time_budget"]:
+            lib_bud = AnyOf(TimeBudget(10**6), lib_bud)
+        if shared is not None:
+            shared["budget"] = lib_bud
+    bud = AnyOf(lib_bud, Checks())
     cls = {"gp": GeneticProgramming, "rs": RandomSearch, "hc": HC, "opo": OnePlusOne}[cfg["algo"]]
     kw = {}
     if cfg["algo"] == "gp":
@@ -186,15 +196,17 @@ def run(ctx):
     ctx.sample = {"config": cfg, "order_seeds": [s1, s2]}
     sig_cfg = f"{cfg['rep']}/{cfg['algo']}"
 
-    def go(order, built=None, grammar=None):
+    shared = {} if H.draw(2) else None  # run A and run B receive the same library budget object
+
+    def go(order, built=None, grammar=None, shared=None):
         set_order_seed(order)
         reset_gene_read_cap(200000)
         with installed_clock(clock):
-            return run_search(spec, cfg, built, grammar, clock)
+            return run_search(spec, cfg, built, grammar, clock, shared)
 
     built = []
     try:
-        tA, b, g = go(s1)
+        tA, b, g = go(s1, shared=shared)
         built.append(b)
         ctx.sample["grammar_source"] = b.source.split("from sim.flaky import Flaky\n", 1)[-1].strip()
         ctx.sample["trace_head"] = tA[:4]
@@ -203,7 +215,7 @@ def run(ctx):
             ctx.nontrivial = True
         ctx.stat("outcome:" + tA[-1].split()[-1])
         # (a) run B in the same process on the same grammar object
-        tB, _, _ = go(s1, b, g)
+        tB, _, _ = go(s1, b, g, shared=shared)
         ctx.faults["carry_over"] += 1
         if tB != tA:
             i, x, y = first_diff(tA, tB)
